@@ -164,6 +164,24 @@ where
     }
 }
 
+#[cfg(feature = "verif-hooks")]
+impl<T, P, S, BIn, K> ConnectionPoolService<T, P, S, BIn, K>
+where
+    T: Transport,
+    P: Protocol<T::IO, BIn>,
+    P::Connection: PoolableConnection<BIn>,
+    BIn: Send + 'static,
+    K: pool::Key,
+{
+    /// Read-only snapshot of the pool's per-key state (verification hook).
+    pub fn verif_pool_snapshot(&self) -> Vec<crate::verif_hooks::PoolEntry> {
+        self.pool
+            .as_ref()
+            .map(|pool| pool.verif_snapshot())
+            .unwrap_or_default()
+    }
+}
+
 impl
     ConnectionPoolService<
         TlsTransport<TcpTransport>,
